@@ -554,7 +554,8 @@ func TestVerifC18(t *testing.T) {
 		{{Addr: "a@пример.рф"}, {Addr: "b@example.org", Orig: "b@xn--e1afmkfd.xn--p1ai"}},
 	}
 	if vx.Thorough() {
-		shapes = append(shapes, []c18Rcpt{{Addr: "a@example.org"}, {Addr: "b@example.org", Orig: "bb@example.org"}, {Addr: "c@пример.рф"}})
+		shapes = append(shapes, []c18Rcpt{{Addr: "a@example.org"}, {Addr: "b@example.org", Orig: "bb@example.org"}, {Addr: "c@пример.рф"}},
+			[]c18Rcpt{{Addr: "final@example.org", Mid: "mid@example.org", Orig: "a@example.org"}, {Addr: "t1@example.org", Orig: "list@example.org"}, {Addr: "t2@example.org", Orig: "list@example.org"}})
 	}
 	for _, sh := range shapes {
 		for _, bf := range []string{"queue-perm", "queue-exhaust"} {
@@ -584,7 +585,7 @@ func TestVerifC18(t *testing.T) {
 			for _, utf8 := range []bool{false, true} {
 				do(c18Case{Rcpts: rc, From: "sender@example.com", UTF8: utf8, Header: headers[code%len(headers)]})
 			}
-			if code%5 == 1 {
+			if code%5 == 1 || vx.Thorough() {
 				do(c18Case{Rcpts: rc, From: "", UTF8: false, Header: headers[0]})
 				for _, bf := range []string{"start", "rcpt", "body", "commit"} {
 					do(c18Case{Rcpts: rc, From: "sender@example.com", UTF8: code%2 == 0, Header: headers[0], BounceFault: bf})
